@@ -390,6 +390,9 @@ func TestVerifC02(t *testing.T) {
 		go func() {
 			defer wg.Done()
 			for hc := range ch {
+				if hrec.Violations() > 60 {
+					continue
+				}
 				c02Handler(hrec, hc.w, hc.f)
 			}
 		}()
